@@ -10,6 +10,20 @@ _TIMEOUT_RX = __import__("re").compile(r"time[\s-]?out|timed[\s-]out|time[\s-]li
                                        __import__("re").I)
 
 
+def machine_busy():
+    """more runnable work than cores (1-minute load average above the core count, or - right now - more runnable
+    tasks than 1.25 x cores): wall-clock budgets inside the MCS stage then fire for reasons that have nothing to do
+    with the code; run-vs-run comparisons of MCS rows made in that state are counted, not judged"""
+    n = os.cpu_count() or 1
+    try:
+        with open("/proc/loadavg") as f:
+            parts = f.read().split()
+        l1, runnable = float(parts[0]), int(parts[3].split("/")[0])
+    except Exception:
+        l1, runnable = os.getloadavg()[0], 0
+    return l1 > 1.0 * n or runnable > 1.25 * n
+
+
 def tainted(row):
     """does this row say that a wall-clock budget fired?  (wording-tolerant: the message text is not part of any
     property; rows so marked are excluded from run-vs-run comparison and counted)"""
